@@ -2,4 +2,4 @@ SPECIFICATION Spec
 CONSTANTS
   MaxLeaves = 520
   TermLeaves = 20
-INVARIANTS TypeOK SizeFormsOK NodeFormsOK BranchFormsOK ProofsOK
+INVARIANTS TypeOK SizeFormsOK NodeFormsOK BranchFormsOK ProofsOK ViewsOK RewindableOK ValidateOK AnyPosOK
